@@ -1,7 +1,11 @@
 import GV.Model.Offsets
 import GV.Model.OffsetsTruth
+import GV.Model.OffsetsWit
 import GV.Proofs.CborBytes
 import GV.Proofs.Offsets
+import GV.Proofs.OffsetsMap
+import GV.Proofs.OffsetsByron
+import GV.Proofs.OffsetsDijkstra
 /-!
 C07 — Transaction byte offsets point at the decoded components.
 
@@ -156,6 +160,106 @@ theorem offsets_slice_shelley {b hdr bodiesRaw witsRaw : Bytes} {rest : List Byt
       refine ⟨by omega, ?_⟩
       rw [hw1, slice_slice b s2.1 s2.2 p.1 p.2 this]
 
+
+/-- **Outputs (Shelley..Dijkstra bodies).** For a transaction body that is a map — definite
+    header of any width or indefinite — whose first key `1` (all earlier keys unsigned
+    integers) has as value an array with children `cs` (any header form): the reported output
+    ranges are exactly those children, shifted to the body's position; they lie inside the value. -/
+theorem outputs_exact {data : Bytes} {h : Nat} {kv : List (Nat × Nat)} {ind : Bool} {ai arg : Nat}
+    {v : Nat × Nat} {ai' arg' hl : Nat} {cs : List (Nat × Nat)} {ind' : Bool} (base : Nat)
+    (hc : childSpans data = some (h, kv, ind)) (hrh : readHead data = .mk 5 ai arg h)
+    (hlen : data.length ≤ 2147483647)
+    (hkey : firstKey data 1 kv = some v) (hv : v ∈ kv)
+    (hrv : readHead (slice data v.1 v.2) = .mk 4 ai' arg' hl)
+    (hcv : childSpans (slice data v.1 v.2) = some (hl, cs, ind')) :
+    outputOffsets data base = cs.map (fun p => (base + v.1 + p.1, p.2)) ∧ InBounds v.2 cs := by
+  obtain ⟨_, _, _, _, _, _, _, _, _, hwf, _⟩ := childSpans_props hc
+  rw [outputOffsets_eq base hc hrh hlen, hkey]
+  exact outputsAt_exact base (hwf v hv) hrv hcv hlen
+
+/-- a body without key 1 (all keys unsigned integers ≠ 1) reports no outputs -/
+theorem outputs_none {data : Bytes} {h : Nat} {kv : List (Nat × Nat)} {ind : Bool} {ai arg : Nat}
+    (base : Nat) (hc : childSpans data = some (h, kv, ind)) (hrh : readHead data = .mk 5 ai arg h)
+    (hlen : data.length ≤ 2147483647) (hkey : firstKey data 1 kv = none) :
+    outputOffsets data base = [] := by
+  rw [outputOffsets_eq base hc hrh hlen, hkey]
+
+/-- **Metadata.** For a metadata segment that is a map (any header form) whose keys are
+    unsigned integers, the range attributed to transaction `k` (a uint32 index) is the value
+    under the last key equal to `k`, shifted to the segment's position — and nothing if there
+    is no such key (in particular a key ≥ 2^32 is attributed to no transaction). -/
+theorem metadata_exact {data : Bytes} {h : Nat} {kv : List (Nat × Nat)} {ind : Bool} {ai arg : Nat}
+    (base k : Nat) (hk : k ≤ 4294967295)
+    (hc : childSpans data = some (h, kv, ind)) (hrh : readHead data = .mk 5 ai arg h)
+    (hlen : data.length ≤ 2147483647)
+    (hkeys : ∀ j, 2 * j < kv.length →
+      ∃ key kl, readUint (data.drop (kv.getD (2 * j) (0, 0)).1) = some (key, kl)) :
+    lookupLast k (metadataOffsets data base) = lastKey data base k kv := by
+  rw [metadataOffsets_eq base hc hrh hlen]
+  have hev := childSpans_map_even hc hrh
+  exact lookupLast_metaEntries data base k hk (kv.length / 2) kv (by omega) hkeys
+
+/-- **Byron.** `extractByronTransactionOffsets` (with `extractByronOutputOffsets`) reports the
+    path compositions for block → body → tx payload → pair → (tx body, witnesses), any header
+    form on each array. (`byronOutputs_exact` does the same for the outputs of each tx body.) -/
+theorem byron_exact {b : Bytes} {h0 h1 h2 : Nat} {s0 s1 s2 t0 t1 t2 t3 : Nat × Nat}
+    {ps : List (Nat × Nat)} (hlen : b.length ≤ 2147483647)
+    (hT : ArrAt b h0 [s0, s1, s2])
+    (hB : ArrAt (slice b s1.1 s1.2) h1 [t0, t1, t2, t3])
+    (hP : ArrAt (slice (slice b s1.1 s1.2) t0.1 t0.2) h2 ps)
+    (hk : ∀ p ∈ ps, 2 ≤ (pairKids (slice (slice b s1.1 s1.2) t0.1 t0.2) p).length) :
+    byronOffsets b ([s0, s1, s2].map fun p => slice b p.1 p.2) =
+      some (ps.map (pairTruth (slice (slice b s1.1 s1.2) t0.1 t0.2) (s1.1 + t0.1))) :=
+  byronOffsets_exact hlen hT hB hP hk
+
+/-- **Dijkstra.** `extractDijkstraTransactionOffsets` reports the path compositions for
+    block → block body → transactions → transaction → (body, witness set, aux), any header form. -/
+theorem dijkstra_exact {b : Bytes} {h0 h1 h2 : Nat} {c0 c1 u0 u1 u2 u3 : Nat × Nat}
+    {ts : List (Nat × Nat)} (hlen : b.length ≤ 2147483647)
+    (hT : ArrAt b h0 [c0, c1])
+    (hB : ArrAt (slice b c1.1 c1.2) h1 [u0, u1, u2, u3])
+    (hX : ArrAt (slice (slice b c1.1 c1.2) u1.1 u1.2) h2 ts)
+    (hk : ∀ t ∈ ts, (pairKids (slice (slice b c1.1 c1.2) u1.1 u1.2) t).length = 3) :
+    dijkstraOffsets b ([c0, c1].map fun p => slice b p.1 p.2) =
+      some (ts.map (txTruth (slice (slice b c1.1 c1.2) u1.1 u1.2) (c1.1 + u1.1))) :=
+  dijkstraOffsets_exact hlen hT hB hX hk
+
+/-! ### Script keys (recorded finding `script-key`)
+
+The `Scripts` map is documented as "script hash → byte location". The extractor hashes
+language ‖ <CBOR item bytes> for every script; `Script.Hash()` hashes language ‖ <CBOR> for a
+native script but language ‖ <script bytes> (the content of the byte string) for Plutus
+scripts. The repository's own test pins the extractor's behaviour, so this is recorded, not
+repaired. -/
+
+open GV.Model.OffsetsWit in
+/-- Full demand: the bytes hashed into the key are the bytes the script's own hash covers. -/
+def C07_scriptkey_full : Prop :=
+  ∀ (ty : Nat) (item c : Bytes), scriptHashBytes ty item = some c → extractorKeyBytes ty item = c
+
+open GV.Model.OffsetsWit in
+/-- It holds for native scripts (language 0). -/
+theorem C07_scriptkey_partial (item c : Bytes) (h : scriptHashBytes 0 item = some c) :
+    extractorKeyBytes 0 item = c := by
+  simpa [scriptHashBytes, extractorKeyBytes] using h
+
+open GV.Model.OffsetsWit in
+/-- It fails for Plutus scripts: the script `41 00` encoded `42 41 00` is keyed by the three
+    CBOR bytes instead of its two script bytes. -/
+theorem C07_scriptkey_witness : ¬ C07_scriptkey_full := by
+  intro h
+  have := h 1 [0x42, 0x41, 0x00] [0x41, 0x00] (by decide)
+  exact absurd this (by decide)
+
+/-- Non-vacuity of the Byron / Dijkstra / outputs / metadata statements: concrete blocks with
+    non-minimal and indefinite headers on the path. -/
+example : extract [0x98, 0x03, 0x80, 0x9f, 0x98, 0x01, 0x9f, 0x83, 0x80, 0x98, 0x01, 0x82, 0x00, 0x00, 0xa0,
+    0x80, 0xff, 0x00, 0x00, 0x00, 0xff, 0xa0] =
+    some [{ body := (7, 8), wit := (15, 1), outs := [(11, 3)] }] := by decide
+
+example : extract [0x9f, 0x80, 0x98, 0x04, 0xf6, 0x99, 0x00, 0x01, 0x9f, 0xbf, 0x01, 0x98, 0x01, 0x82, 0x00, 0x00, 0xff,
+    0xa0, 0xa1, 0x00, 0x00, 0xff, 0xf6, 0xf6, 0xff] =
+    some [{ body := (9, 8), wit := (17, 1), aux := (18, 3), outs := [(13, 3)] }] := by decide
 
 /-- Non-vacuity: a block `[hdr, bodies, witnesses, metadata]` whose top-level header is the
     non-minimal `98 04`, whose bodies array is indefinite, whose witnesses array has a
